@@ -33,6 +33,26 @@ def files():
     out = [(n, d) for n, d in base_files()
            if n in ('simple', 'long-content', 'utf16', 'crlf-headers',
                     'blank-lines', 'ends-in-container')]
+    # a foreign file whose headers carry as few options as the format
+    # allows (content headers: length only) and whose contents mix line
+    # endings (CRLF lines around a bare-LF line and vice versa, lone CRs)
+    mixed = b'one\r\ntwo\nthree\r\n'
+    mixed2 = b'one\ntwo\r\nthree\rfour\n'
+    js = b'{"a": "x"}\n'
+    out.append(('minimal-headers-mixed-endings',
+                b'#diffx: version=1.0\n'
+                b'#.preamble: length=%d\n%s'
+                b'#.meta: length=%d\n%s'
+                b'#.change:\n'
+                b'#..preamble: length=%d\n%s'
+                b'#..file:\n#...meta: length=%d\n%s'
+                b'#...diff: length=%d\n%s'
+                b'#..file:\n#...meta: length=%d\n%s'
+                b'#...diff: length=%d\n%s'
+                b'#.change:\n#..file:\n#...meta: length=%d\n%s'
+                % (len(mixed), mixed, len(js), js, len(mixed2), mixed2,
+                   len(js), js, len(mixed), mixed, len(js), js,
+                   len(mixed2), mixed2, len(js), js)))
     ex = sorted(glob.glob(os.path.join(spec.REPO, 'docs', 'spec',
                                        'example-diffs', '*.diff')))
     for p in ex:
